@@ -251,8 +251,12 @@ class MultiLevelTransform(CompositeTransform):
                 return identity.unsqueeze(0)
             transform = transforms[0]
             mat = as_homogeneous_matrix(transform.tensor())
-            for transform in transforms[1:]:
-                mat += as_homogeneous_matrix(transform.tensor())
+            if len(transforms) > 1:
+                # Sum of displacements u_i(x) = A_i x + t_i - x, i.e., y = (I + sum_i (A_i - I)) x + sum_i t_i
+                D = self.ndim
+                identity = torch.eye(D, D + 1, dtype=mat.dtype, device=mat.device)
+                for transform in transforms[1:]:
+                    mat = mat + (as_homogeneous_matrix(transform.tensor()) - identity)
             return mat
         return self.disp()
 
